@@ -174,6 +174,9 @@ def _reduce_cs(p):
 
 
 def run(ctx):
+    from . import e2e_rules as _e2e
+
+    ctx.attempt(_e2e.loads_rule, ctx, 'R9.E1')
     from ..shared import group_loop_rule as _group_loop_rule
 
     ctx.attempt(load_accumulation_rule, ctx)
